@@ -315,12 +315,16 @@ void misc_string_ops(Enumerator &E) {
                     size_t ts = b.target(o);
                     E.cell(nm("istream", std::string(wide ? "wide" : "narrow") + (corrupt ? ",corrupted" : ""), std::string("token=") + L(LC16[ti], 16) + ",dst=" + L(LC16[di], 16)), b, ts);
                 }
-        for (unsigned var = 0; var < 24; var++) {
-            Builder b; uint32_t x = b.str(ti == 4 ? 70 : LC16[ti]);
-            Op o; o.kind = S_SINKS; o.a = x; o.b = var; o.c = 77;
-            size_t ts = b.target(o);
-            E.cell(nm("sinks", "var" + std::to_string(var), std::string("obj=") + L(LC16[ti], 16)), b, ts);
-        }
+        for (unsigned sink = 0; sink < 3; sink++)
+            for (unsigned exc = 0; exc < 2; exc++)
+                for (unsigned fmt = 0; fmt < 6; fmt++)
+                    for (int missing = 0; missing < 2; missing++) {
+                        if (sink == 2 && exc) continue;
+                        Builder b; uint32_t x = b.str(ti == 4 ? 70 : LC16[ti]);
+                        Op o; o.kind = S_SINKS; o.a = x; o.b = sink | (exc << 2) | (fmt << 3); o.c = 77; if (missing) { if (fmt) continue; o.fault = F_CORRUPT; o.fc = 1; }
+                        size_t ts = b.target(o);
+                        E.cell(nm("sinks", std::string(sink == 0 ? "narrow" : sink == 1 ? "wide" : "FILE") + (exc ? ",exceptions" : "") + ",fmt" + std::to_string(fmt) + (missing ? ",missing_arg" : ""), std::string("obj=") + L(LC16[ti], 16)), b, ts);
+                    }
         for (unsigned wide = 0; wide < 2; wide++) {
             Builder b; uint32_t x = b.str(LC16[ti]);
             Op o; o.kind = S_OSTREAM; o.a = x; o.b = wide;
